@@ -428,6 +428,26 @@ func (u *Unit) evalGhostCall(call *ast.CallExpr, f *types.Func, st *State) []Val
 		setSort := "(Array " + ks + " Bool)"
 		dom := u.mapDom(st, m, mt)
 		return []Val{{T: ite(eq(m.T, "0"), "((as const "+setSort+") false)", dom), S: setSort, GT: typeOf(u.info, call)}}
+	case "reached":
+		// reached("callee#n"): the named call site has been executed on this path (inside a loop: in the
+		// current iteration); a site that does not exist has not been reached
+		lit, ok := ast.Unparen(call.Args[0]).(*ast.BasicLit)
+		if !ok || u.fi == nil {
+			u.fail("reached() needs a string literal naming a call site (%s)", u.pos(call))
+		}
+		name := strings.Trim(lit.Value, "\"`")
+		var alts []string
+		for _, sn := range findCallSites(u.prog, u.fi, name) {
+			if site, ok := sn.(*ast.CallExpr); ok {
+				if t, ok := st.reached[site]; ok {
+					alts = append(alts, t)
+				}
+			}
+		}
+		if len(alts) == 0 {
+			return b("false")
+		}
+		return b(or(alts...))
 	case "fst", "snd":
 		var vs []Val
 		if len(call.Args) == 1 {
